@@ -149,10 +149,11 @@ def run(prop, tier):
 
     # ---- (2) driver: the real verifier on every play ---------------------
     t1 = time.time()
-    payloads = [dict(plays=ch, verify_every=T["verify_every"]) for ch in lib.chunks(flats, jobs) if ch]
+    payloads = [dict(plays=ch, verify_every=T["verify_every"], seed=lib.seed() * 1000 + 500 + k)
+                for k, ch in enumerate(lib.chunks(flats, jobs)) if ch]
     for j in range(T["random_jobs"]):
         payloads.append(dict(random=dict(seed=lib.seed() * 1000 + j, bases=T["bases"], edits=T["edits"]),
-                             verify_every=T["verify_every"]))
+                             verify_every=T["verify_every"], seed=lib.seed() * 1000 + j))
     outs = lib.run_driver_parallel("drive_playbook.py", payloads, hashseeds=list(range(1, 33)), timeout=1500, jobs=jobs)
     plays, origin, events = [], [], []
     index = {}
